@@ -20,8 +20,8 @@ type sx struct {
 	Args []*sx
 }
 
-func leaf(name string) *sx   { return &sx{Op: "leaf", Name: name} }
-func num(n int64) *sx        { return &sx{Op: "const", N: n} }
+func leaf(name string) *sx        { return &sx{Op: "leaf", Name: name} }
+func num(n int64) *sx             { return &sx{Op: "const", N: n} }
 func bin(op string, a, b *sx) *sx { return fold(&sx{Op: op, Args: []*sx{a, b}}) }
 
 func fold(e *sx) *sx {
